@@ -1164,7 +1164,8 @@ EBoolean = EDataType('EBoolean', bool, False,
                      from_string=lambda x: x in ['True', 'true'] or x is True)
 EBooleanObject = EDataType('EBooleanObject', bool,
                            to_string=lambda x: str(x).lower(),
-                           from_string=lambda x: x in ['True', 'true'])
+                           from_string=lambda x: x in ['True', 'true']
+                           or x is True)
 EInteger = EDataType('EInteger', int, 0, from_string=int)
 EInt = EDataType('EInt', int, 0, from_string=int)
 ELong = EDataType('ELong', int, 0, from_string=int)
